@@ -39,7 +39,7 @@ inline GArg make_arg(char tag, int64_t val, uint64_t seed) {
     case 'd': { uint64_t u = (uint64_t)val * 0x9E3779B97F4A7C15ull ^ seed; if (seed % 3 == 0) u = (uint64_t)val; memcpy(&a.v.d, &u, 8); break; }
     case 'm': for (int i = 0; i < 4; i++) a.v.m[i] = (uint8_t)(val >> (8 * i)); break;
     case 's': case 'S': { size_t n = (size_t)std::max<int64_t>(0, std::min<int64_t>(val, 600)); a.s = printable(seed, n, false); break; }
-    case 'b': { size_t n = (size_t)std::max<int64_t>(0, std::min<int64_t>(val, 600)); a.blob.resize(n); for (auto &b : a.blob) b = (uint8_t)r.next(); a.null_blob = (n == 0 && (seed & 1)); break; }
+    case 'b': { size_t n = (size_t)std::max<int64_t>(0, std::min<int64_t>(val, 600)); a.blob.resize(n); for (auto &b : a.blob) b = (uint8_t)r.next(); a.null_blob = (n == 0 && (seed & 1)) || (n > 0 && seed % 7 == 0); break; }   // NULL data also with a length: the writer then leaves the payload zeroed
     default: break;
     }
     return a;
